@@ -84,11 +84,11 @@ ASSUMPTIONS = ['molecule adjacency is symmetric (Graph invariant; the driver ans
                'held to formula / skeleton preservation and to all other clauses',
                'molecules whose non-aromatic atoms already carry an undefined hydrogen count are outside the domain']
 HAS_DRIVER = True
-EXTRA_MODULES = ['Spec.Kekule', 'Model.C05Kekule', 'Model.C05Rules', 'Model.C05Thiele', 'Model.C05Search', 'Gen.AromaticRules']
+EXTRA_MODULES = ['Spec.Kekule', 'Model.C05Kekule', 'Model.C05Rules', 'Model.C05Thiele', 'Model.C05Search', 'Model.C05Full', 'Gen.AromaticRules']
 PROGRAMS = ['kekule / thiele against the pinned aromatic reference (corpus/C05_aromatic_reference.json)', 'Thiele.thiele ring eligibility (monocyclic templates)', 'MoleculeContainer.kekule', 'MoleculeContainer.enumerate_kekule', 'MoleculeContainer.thiele',
             'MoleculeContainer.thiele(fix_tautomers=False)', 'Kekule.__prepare_rings', 'Kekule.__fix_rings',
             'MoleculeContainer.calc_implicit (through kekule)', 'aromatics._rules.rules',
-            'aromatics.kekule._kekule_component']
+            'aromatics.kekule._kekule_component', 'MoleculeContainer.kekule (whole, as composition of the models)']
 ENUM_CAP = 48
 KNOWN_TAUTOMER_SIG = 'C05/thiele-numbering-dependent/tautomer-fix-acceptor-choice'
 KNOWN_SSSR_SIG = 'C05/thiele-numbering-dependent/sssr-choice-in-cages'
@@ -242,6 +242,8 @@ def install_recorder():
             key = ks_key([(n, list(ms)) for n, ms in rings.items()], dbl, pyrroles, buffer_size)
             if key not in calls and len(calls) < 200000:
                 calls[key] = _state.get('cur')
+            if _state.get('ks_log') is not None:
+                _state['ks_log'].append(key)
         except Exception:  # noqa
             pass
         return orig(rings, double_bonded, pyrroles, buffer_size)
@@ -1406,11 +1408,26 @@ def mol_cases(tag, mol, batch, rel, rng, renum=True, dist=None, known=None, extr
         pstr, pres = impl_prepare(fixed)
         batch.add(line('prep', fints, sssr_ints(fixed)), pstr, 'K', 'prep', (tag, fints))
         k = src.copy()
-        st, ret = outcome(lambda: k.kekule())
+        _state['ks_log'] = []
+        try:
+            st, ret = outcome(lambda: k.kekule())
+        finally:
+            klog, _state['ks_log'] = _state['ks_log'], None
         d('kekule:' + st)
         if st.startswith('crash'):
             rel('kekule-outcome', f'{tag}: kekule() {st}', ints0)
             return True
+        # K: the whole of kekule() as the composition of the modelled pieces (fix -> prepare -> components -> search ->
+        # assignment -> hydrogens), given what the real call observed of its sets (component starts, first elements)
+        comp_ints = [7, len(klog)]
+        for rings_k, dbl_k, pyr_k, _ in klog:
+            comp_ints.append(len(rings_k))
+            for n_, ms_ in rings_k:
+                comp_ints += [n_, len(ms_)] + list(ms_)
+            comp_ints += [len(dbl_k)] + list(dbl_k) + [len(pyr_k)] + list(pyr_k)
+        batch.add(line('kekf', ints0, maps_ints(logs), sssr_ints(fixed), comp_ints),
+                  'raise' if st == 'lib:InvalidAromaticRing' else f'{int(bool(ret))} | {wire.mol_to_line(k)}', 'KK',
+                  'kekule-full-model', (tag, ints0))
         if tag.startswith('gen-arom-wild'):
             d('gen-arom-wild:K-streams-only')
             return False
@@ -1823,6 +1840,13 @@ def run_batch(ctx, batch):
                 _state.setdefault('bad', []).append((name, info[1]))
             else:
                 ctx.dist('tnf:equal')
+        elif kind == 'KK':
+            if (got != exp) if exp == 'raise' else (wire_core(got) != wire_core(exp)):
+                ctx.cov['disagreements_checked'] += 1
+                ctx.broke('correspondence', name, f'{info[0]}: model {got[:400]!r} impl {exp[:400]!r}')
+                _state.setdefault('bad', []).append((name, info[1]))
+            else:
+                ctx.dist('kekule-full-model:' + ('raise' if exp == 'raise' else 'equal'))
         elif kind == 'K1':
             if got.split(' ')[0] != exp:
                 ctx.cov['disagreements_checked'] += 1
